@@ -6,7 +6,7 @@
     the decimal that was written ([rb]); that decimal is within half a unit of its last digit of the original
     value (C17_figures_at_precision). *)
 From Coq Require Import String List.
-From Cteepbd Require Import Base.Num Model.Types Model.Dump Model.Text Model.Parse Proofs.RoundTrip.
+From Cteepbd Require Import Base.Num Model.Types Model.Dump Model.Text Model.Parse Model.Components Proofs.RoundTrip Proofs.CompFile.
 Import ListNotations. Open Scope list_scope.
 
 (** whatever the tokens (no white space, comma or hash inside) and whatever the trimmed comment, a line made of the
@@ -79,6 +79,31 @@ Example C18_factors_file_example :
   Forall good_meta (wmeta f) /\ Forall good_factor (wdata f).
 Proof. cbv zeta. split; repeat constructor; vm_compute; reflexivity. Qed.
 
+(** a whole components file (what --oc writes, what [Display] gives): the text is read as the records that were
+    written — same metadata, same components in the same order with the same ids, tags and comments (an auxiliary line
+    does not carry its service: NEPB until assigned again), same demands, every value at the written precision — and
+    these records are normalised again.  (What re-normalising can add is the known finding C18-rounding-recompletion.) *)
+Theorem C18_components_file : forall c n,
+  c_meta c <> [] -> c_data c <> [] -> Forall good_meta (c_meta c) -> Forall good_energy (c_data c) -> good_needs (c_needs c) ->
+  Forall (fun e => length (e_vals e) = n) (c_data c) ->
+  parse_components (show_components c)
+  = of_res (normalize (mkComponents (c_meta c) (map rt_energy (c_data c)) (rt_needs (c_needs c)))).
+Proof. exact components_file_roundtrip. Qed.
+
+Example C18_components_file_example :
+  let c := mkComponents [mkMeta (cs "CTE_AREAREF") (cs "100.00")]
+                        [EUsed 1 ELECTRICIDAD ACS [qfrac 1001 8; qfrac 5 2] (cs "bomba, de calor # 1"); EProd 1 EL_INSITU [qfrac 10 1; qfrac 7 3] [];
+                         EAux 1 ACS [qfrac 1 2; qfrac 1 4] (cs "Reasignación"); EOut 1 ACS [qfrac 300 1; qfrac 250 1] []]
+                        (mkNeeds (Some [qfrac 200 1; qfrac 150 1]) None None) in
+  c_meta c <> [] /\ c_data c <> [] /\ Forall good_meta (c_meta c) /\ Forall good_energy (c_data c) /\ good_needs (c_needs c)
+  /\ Forall (fun e => length (e_vals e) = 2%nat) (c_data c).
+Proof.
+  cbv zeta. cbn [c_meta c_data c_needs]. split; [discriminate|]. split; [discriminate|].
+  split; [repeat constructor; vm_compute; reflexivity|].
+  split; [repeat constructor; try (vm_compute; reflexivity); try (unfold i32; cbn; Lia.lia); discriminate|].
+  split; [repeat split; try discriminate; vm_compute; reflexivity|]. repeat constructor.
+Qed.
+
 (** a component without values is written with a trailing ", " and does not read back: the hypothesis [v <> []] is needed *)
 Example C18_empty_values_refuted :
   parse_used (show_energy (EUsed 1 ELECTRICIDAD ACS [] [])) = PErr ParseError
@@ -140,3 +165,4 @@ Print Assumptions C18_factor_line.
 Print Assumptions C18_metadata_line.
 Print Assumptions C18_factors_file.
 Print Assumptions C18_saved_factors_evaluate_the_same.
+Print Assumptions C18_components_file.
